@@ -308,6 +308,14 @@ def children_of_voided_lines_are_laid_out(prog, rep, R):
     if not rep.check(of is not None, R, "anchor:OLF::format", "OptimisingLineFormatter::format not found"):
         return
     fam = [of] + [x for x in prog.bodies.values() if x.npath.startswith(of.npath + "::")]
+    # .. plus helpers of the wrapper that are called from there (the parent test may be a function of its own)
+    for x in list(fam):
+        for c in x.calls():
+            tgt = norm(c.t.get("resolved") or c.callee or "")
+            cb = prog.body(tgt)
+            if cb is not None and tgt.startswith(OLF) and cb not in fam and not cb.loops() and len(cb.blocks) < 60:
+                fam.append(cb)
+                fam += [y for y in prog.bodies.values() if y.npath.startswith(cb.npath + "::")]
     # the start filter: the closure (or the function itself) that asks a line for its parent
     starts = [x for x in fam if any((c.callee or "").endswith("LogicalLine::get_parent") for c in x.calls())]
     starts = [x for x in starts if x.kind == "Closure" and any((c.callee or "").endswith("::filter") and any(a["k"] in ("copy", "move") and not a["place"]["p"] and norm(of.locals[a["place"]["l"]].get("closure") or "") == x.npath for a in c.args) for c in of.calls())] or starts
@@ -502,6 +510,24 @@ def _zeroing_as_iterator_chain(prog, zf):
     return True
 
 
+def wrapping_calls(prog, body, depth=0):
+    """Call sites in `body` that lay a line out: calls of format_line itself, or of a workspace function / closure of the wrapper whose
+    own code calls format_line (`format_and_reconstruct_line(line)` extracted from two places counts as the wrapping it contains)."""
+    FL = OLF + "InternalOptimisingLineFormatter::format_line"
+    out = []
+    for c in body.calls():
+        tgt = norm(c.t.get("resolved") or c.callee or "")
+        if tgt == FL:
+            out.append(c)
+            continue
+        cb = prog.body(tgt)
+        if cb is not None and cb.crate.startswith("pasfmt") and tgt.startswith(OLF) and depth < 2 and cb.npath != body.npath:
+            fam = [cb] + [x for x in prog.bodies.values() if x.npath.startswith(cb.npath + "::")]
+            if any(norm(k.t.get("resolved") or k.callee or "") == FL for x in fam for k in x.calls()):
+                out.append(c)
+    return out
+
+
 def zeroing_after_wrapping(prog, rep, R):
     """Spaces before line-starting tokens are removed by one loop over all tokens, after the last wrapping pass."""
     of = prog.body(OLF_FMT)
@@ -531,7 +557,7 @@ def zeroing_after_wrapping(prog, rep, R):
                   instance={"shape": form, "guard": "newlines_before > 0", "store": "spaces_before = 0"})
         # every return of format() passes the zeroing, and no wrapping happens after it
         zc = of.calls_to(ZERO_FN)
-        fls = of.calls_to(OLF + "InternalOptimisingLineFormatter::format_line")
+        fls = wrapping_calls(prog, of)
         every = bool(zc) and bfs_path(of, 0, set(of.return_blocks()), {c.bb for c in zc}) is None
         after = [f for f in fls for c in zc if of.can_reach_avoiding(c.bb, {f.bb}, set())]
         rep.check(every and not after and len(fls) == 2, R, "line-start-spaces-zeroed-after-all-wrapping",
@@ -1016,7 +1042,17 @@ def check_c08(prog, rep, tier, cfg):
         rep.check(good, R, "selector:Eof=>EofNewline-only", "the formatter selector maps line types as %s (expected Eof => Some(eof formatter), everything else => None)" % rows, instance={"rows": [r for _, r in rows]})
     if of is not None:
         flt = [b2 for b2 in prog.closures_of(of.npath) if any(v == "Eof" for a, v in enum_variants_mentioned(b2))]
-        rep.check(len(flt) == 1 and any((c.callee or "") == "core::cmp::PartialEq::ne" for c in flt[0].calls()), R, "wrapper-skips-Eof-lines", "the wrapper's line filter no longer excludes Eof lines")
+        ok_f = len(flt) == 1 and any((c.callee or "") == "core::cmp::PartialEq::ne" for c in flt[0].calls())
+        if not ok_f:
+            # .. or a test in the loop itself: every wrapping call of the first pass runs under `line type != Eof`
+            from panic import dominating_conditions as _dc2
+            first_pass = [c for c in wrapping_calls(prog, of)][:1]
+            for c in first_pass:
+                for cd in _dc2(of, c.bb):
+                    if cd[0] == "call" and "LogicalLineType as core::cmp::PartialEq" in cd[1] and ((cd[1].endswith("::eq") and cd[3] is False) or (cd[1].endswith("::ne") and cd[3] is True)):
+                        if any(any(x[0] == "const" and str(x[2]).endswith("Eof") for x in Origins(of).of_operand(a)) for a in cd[2]):
+                            ok_f = True
+        rep.check(ok_f, R, "wrapper-skips-Eof-lines", "the wrapper's line filter no longer excludes Eof lines")
     # ---------------------------------------------------------------- C08.e indentation strings
     R = "C08.e"
     rs_new_table(prog, rep, R)
@@ -1211,7 +1247,7 @@ def check_c09(prog, rep, tier, cfg):
         fms = of.calls_to(OLF + "multiline_strings::StringFormatter::format_multiline_strings")
         makers = [bb for bb, i, s in of.stmts() if s["k"] == "assign" and s["rv"]["k"] == "aggregate" and norm(s["rv"].get("adt", "")) == TL]
         mk_cl = [b2 for b2 in prog.closures_of(of.npath) if any(s["k"] == "assign" and s["rv"]["k"] == "aggregate" and norm(s["rv"].get("adt", "")) == TL for _, _, s in b2.stmts())]
-        fls = of.calls_to(OLF + "InternalOptimisingLineFormatter::format_line")
+        fls = wrapping_calls(prog, of)
         stores = [a for a in prog.field_accesses(TL, "content", within={of.npath}) if a[3].startswith("write")]
         ok = len(fms) == 1 and len(fls) == 2 and len(mk_cl) == 1
         good = False
@@ -1595,7 +1631,7 @@ def check_c11(prog, rep, tier, cfg):
     of = prog.body(OLF_FMT)
     if rep.check(of is not None, R, "anchor:OLF::format", "OptimisingLineFormatter::format not found"):
         ms = of.calls_to(OLF + "multiline_strings::StringFormatter::format_multiline_strings")
-        fls = of.calls_to(OLF + "InternalOptimisingLineFormatter::format_line")
+        fls = wrapping_calls(prog, of)
         # memo fields of the wrapper: whatever its methods reach through RefCell::borrow / borrow_mut
         memo_fields = sorted({canon(b2, c.args[0]).split(".")[-1] for b2 in prog.bodies.values() if b2.npath.startswith(OLF + "InternalOptimisingLineFormatter::")
                               for c in b2.calls() if (c.callee or "") in ("core::cell::RefCell::borrow", "core::cell::RefCell::borrow_mut")})
